@@ -10,7 +10,7 @@ VERIF = os.path.dirname(os.path.dirname(os.path.abspath(__file__)))
 CACHE = os.environ.get("VERIF_CACHE", os.path.join(VERIF, ".cache"))
 
 CHECK_RE = re.compile(
-    r"^Check (\d+): (\S+)\n\s+- Status: (\S+)\n\s+- Description: \"(.*)\"\n\s+- Location: (.*)$",
+    r"^Check (\d+): (.+)\n\s+- Status: (\S+)\n\s+- Description: \"(.*)\"\n\s+- Location: (.*)$",
     re.M,
 )
 
